@@ -224,6 +224,10 @@ do_mgr(const cmd *c)
         register_all();
         snapshot_before();
         uint64_t r = vcall(f_init, 1, args, &o);
+        if (!o.fault && obj_reuse()) { /* initialising a manager twice in a row leaves a usable, empty manager */
+                register_all();
+                r = vcall(f_init, 1, args, &o);
+        }
         ev_begin("HReset");
         ev_str("alg", alg);
         ev_str("fam", fam);
